@@ -3,7 +3,9 @@
 (* projection o of the intermediate symbol table) must satisfy the clauses of Hierarchy.tla.          *)
 (* One initial state per accepted observation (k = "start"), one successor per clause; one named      *)
 (* invariant per clause, so that TLC reports every violated clause of every observation (-continue)   *)
-(* and the worker threads share the evaluation.                                                       *)
+(* and the worker threads share the evaluation.  The clauses about repeats are split by the source-   *)
+(* level explanation of the repeat (Hierarchy!Explanation), so that the name of the violated          *)
+(* invariant is the structural fingerprint <clause>__<explanation> used for the known findings.        *)
 EXTENDS Hierarchy, Json, IOUtils
 Obs == JsonDeserialize(IOEnv.VERIF_OBS)
 VARIABLES i, k
@@ -12,11 +14,14 @@ Next == k = "start" /\ k' \in ClauseNames /\ i' = i
 H == Obs[i].h
 O == Obs[i].o
 Inv_AncestorsAreClosure == k = "AncestorsAreClosure" => AncestorsAreClosure(H, O)
-Inv_AncestorsNoDup == k = "AncestorsNoDup" => AncestorsNoDup(H, O)
+Inv_AncestorsNoDup__multiple_inheritance_paths == k = "AncestorsNoDup" => (AncestorsNoDup(H, O) \/ Explanation("AncestorsNoDup", H, O) # "multiple_inheritance_paths")
+Inv_AncestorsNoDup__none == k = "AncestorsNoDup" => (AncestorsNoDup(H, O) \/ Explanation("AncestorsNoDup", H, O) # "none")
 Inv_DescendantsAreInverse == k = "DescendantsAreInverse" => DescendantsAreInverse(H, O)
-Inv_DescendantsNoDup == k = "DescendantsNoDup" => DescendantsNoDup(H, O)
+Inv_DescendantsNoDup__multiple_inheritance_paths == k = "DescendantsNoDup" => (DescendantsNoDup(H, O) \/ Explanation("DescendantsNoDup", H, O) # "multiple_inheritance_paths")
+Inv_DescendantsNoDup__none == k = "DescendantsNoDup" => (DescendantsNoDup(H, O) \/ Explanation("DescendantsNoDup", H, O) # "none")
 Inv_ConcreteDescendantsRight == k = "ConcreteDescendantsRight" => ConcreteDescendantsRight(H, O)
-Inv_ConcreteDescendantsNoDup == k = "ConcreteDescendantsNoDup" => ConcreteDescendantsNoDup(H, O)
+Inv_ConcreteDescendantsNoDup__multiple_inheritance_paths == k = "ConcreteDescendantsNoDup" => (ConcreteDescendantsNoDup(H, O) \/ Explanation("ConcreteDescendantsNoDup", H, O) # "multiple_inheritance_paths")
+Inv_ConcreteDescendantsNoDup__none == k = "ConcreteDescendantsNoDup" => (ConcreteDescendantsNoDup(H, O) \/ Explanation("ConcreteDescendantsNoDup", H, O) # "none")
 Inv_PropertiesAreHeritage == k = "PropertiesAreHeritage" => PropertiesAreHeritage(H, O)
 Inv_PropertiesOrdered == k = "PropertiesOrdered" => PropertiesOrdered(H, O)
 Inv_InvariantsAreHeritage == k = "InvariantsAreHeritage" => InvariantsAreHeritage(H, O)
@@ -24,7 +29,9 @@ Inv_InvariantsOrdered == k = "InvariantsOrdered" => InvariantsOrdered(H, O)
 Inv_MethodsAreHeritage == k = "MethodsAreHeritage" => MethodsAreHeritage(H, O)
 Inv_MethodsOrdered == k = "MethodsOrdered" => MethodsOrdered(H, O)
 Inv_CtorAssignsEvery == k = "CtorAssignsEvery" => CtorAssignsEvery(H, O)
-Inv_CtorAssignsAtMostOnce == k = "CtorAssignsAtMostOnce" => CtorAssignsAtMostOnce(H, O)
+Inv_CtorAssignsAtMostOnce__written_twice == k = "CtorAssignsAtMostOnce" => (CtorAssignsAtMostOnce(H, O) \/ Explanation("CtorAssignsAtMostOnce", H, O) # "written_twice")
+Inv_CtorAssignsAtMostOnce__multiple_inheritance_paths == k = "CtorAssignsAtMostOnce" => (CtorAssignsAtMostOnce(H, O) \/ Explanation("CtorAssignsAtMostOnce", H, O) # "multiple_inheritance_paths")
+Inv_CtorAssignsAtMostOnce__none == k = "CtorAssignsAtMostOnce" => (CtorAssignsAtMostOnce(H, O) \/ Explanation("CtorAssignsAtMostOnce", H, O) # "none")
 Inv_CtorNoSuperCalls == k = "CtorNoSuperCalls" => CtorNoSuperCalls(H, O)
 Inv_InterfacesExact == k = "InterfacesExact" => InterfacesExact(H, O)
 Inv_Topological == k = "Topological" => Topological(H, O)
